@@ -25,8 +25,6 @@ var reviewedMapRangesEval = map[string]string{
 	"ledger/eval.stateDelta.serialize:range(sd)":                                    "copies entries into a map keyed by the same key",
 	"ledger/eval.roundCowState.buildEvalDelta:range(cb.sdeltas)":                    "fills maps keyed by account index / key; the errors are consistency checks that fail for every order",
 	"ledger/eval.roundCowState.buildEvalDelta:range(smod)":                          "fills maps keyed by account index / key; at most one global delta may exist, checked for every order",
-	"ledger/eval.roundCowState.deltas:range(cb.sdeltas)":                            "applies each (address, app) storage delta to its own resource record; records of different keys are disjoint",
-	"ledger/eval.roundCowState.deltas:range(smap)":                                  "applies each (address, app) storage delta to its own resource record; records of different keys are disjoint",
 	"ledger/eval.roundCowState.deltas:range(cb.mods.KvMods)":                        "rewrites the entry under the same key (OldData fill-in)",
 	"ledger/eval.roundCowState.commitToParent:range(cb.mods.Txleases)":              "AddTxLease stores into the parent's map under the same key",
 	"ledger/eval.roundCowState.commitToParent:range(cb.mods.Creatables)":            "AddCreatable stores into the parent's map under the same key",
